@@ -43,6 +43,7 @@ def cases(tier, seed):
                    pending=rnd.choice(['none', 'after-each', 'random']),
                    in_file=rnd.random() < 0.4, mid=rnd.choice([0, 1, 255, 65535, rnd.randrange(65536)]),
                    stall=rnd.random() < 0.2, maxlen=rnd.choice([64, 256, 16384]),
+                   dest=rnd.choice(['real', 'real', 'never-answers-release']),
                    seed=seed * 100003 + i)
 
 
@@ -251,7 +252,41 @@ def _move(case):
         dest = world.make_ae(Dest, 'DEST', 4006, [rc.IMPLICIT_LE], 16384)
         dest.timeout = 300
         dest.add_scp(store_mem)
-        world.serve_ae(dest, DEST)
+        slow_release = case.get('dest') == 'never-answers-release'
+        if not slow_release:
+            world.serve_ae(dest, DEST)
+        else:
+            # a foreign destination that performs and answers every C-STORE but never answers
+            # the A-RELEASE-RQ of the sub-association
+            def dest_msg(peer, m):
+                f = m['fields']
+                if f.get(0x0100) == 0x0001:
+                    data = m['data'] or b''
+                    i = data.find(b'1.2.826.0.1.19.')
+                    j = i
+                    while j < len(data) and (48 <= data[j] <= 57 or data[j] == 46):
+                        j += 1
+                    stored.append(data[i:j].decode())
+                    st = OUT[case['outcomes'][len(stored) - 1]] if len(stored) <= n else 0
+                    peer.send_message(m['pcid'], {0x0002: f.get(0x0002), 0x0100: 0x8001,
+                                                  0x0120: f.get(0x0110), 0x0800: 0x0101,
+                                                  0x0900: st, 0x1000: f.get(0x1000)})
+
+            class SlowDest(peers.ScriptedAcceptor):
+                def serve(self):
+                    while True:
+                        p = self.read_pdu()
+                        if p is None or p == 'timeout':
+                            self.close()
+                            return
+                        if p['kind'] == 'P-DATA-TF':
+                            for m in self.feed_pdata(p):
+                                dest_msg(self, m)
+                        elif p['kind'] == 'A-ABORT':
+                            self.close()
+                            return
+                        # A-RELEASE-RQ: ignored on purpose
+            world.serve_peer(DEST, lambda sock: SlowDest(world.sim, sock))
         other_hits = []
         world.serve_peer(('otherhost', 4007), lambda sock: (other_hits.append(1),
                                                              peers.ScriptedAcceptor(world.sim, sock))[1])
@@ -265,7 +300,7 @@ def _move(case):
                         yield d
                 return {'aet': 'DEST', 'address': DEST[0], 'port': DEST[1]}, n, gen()
         srv = world.make_ae(Srv, 'SRV', 11112, [rc.IMPLICIT_LE], case['maxlen'])
-        srv.timeout = 300
+        srv.timeout = 300 if not slow_release else 6
         srv.add_scp(sopclass.qr_move_scp)
         srv.add_scu(sopclass.storage_scu, [CT, MR])
         world.serve_ae(srv, ADDR)
@@ -350,7 +385,7 @@ def _move(case):
             f = m['fields']
             if f.get(0x1020) not in (0, None, ''):
                 v('final-response-remaining-not-zero', repr(f.get(0x1020)))
-        if world.handler_errors:
+        if world.handler_errors and not slow_release:
             v('move-provider-crashed n=%s' % ('0' if n == 0 else '>0'),
               world.handler_errors[0][-500:])
         return _fin(world, viol, case, {'pending': len(pend), 'final': len(final)})
